@@ -16,7 +16,7 @@ import time
 HERE = os.path.dirname(os.path.abspath(__file__))
 VERIF = os.path.dirname(HERE)
 CACHE = os.environ.get('CAPCHECK_CACHE', os.path.join(VERIF, '.cache'))
-TOOL_VERSION = '10'
+TOOL_VERSION = '11'
 
 CONTAINERS = ['lru_cache', 'mru_cache', 'rr_cache', 'fifo_cache', 'lfu_cache', 'lfuda_cache',
               'tlru_cache', 'utlru_cache', 'ut_map', 'ut_set']
@@ -271,6 +271,28 @@ class Program:
         self.enums = {}
         self.mutex_specs = []
         want = 'cappuccino::thread_safe::' + ts
+        self.free_functions = {}     # id -> FunctionDecl node with a body (namespace cappuccino and nested namespaces; template instantiations)
+
+        def collect(ns):
+            for c in ns.get('inner', []) or []:
+                k = c.get('kind')
+                if k == 'NamespaceDecl':
+                    collect(c)
+                elif k == 'FunctionDecl' and any(x.get('kind') == 'CompoundStmt' for x in c.get('inner', [])):
+                    self.free_functions[c['id']] = c
+                elif k == 'FunctionTemplateDecl':
+                    for f in c.get('inner', []):
+                        if f.get('kind') == 'FunctionDecl' and any(x.get('kind') == 'CompoundStmt' for x in f.get('inner', [])):
+                            self.free_functions[f['id']] = f
+        for o in objs:
+            if o.get('kind') == 'NamespaceDecl':
+                collect(o)
+            elif o.get('kind') == 'FunctionDecl' and any(x.get('kind') == 'CompoundStmt' for x in o.get('inner', [])):
+                self.free_functions[o['id']] = o
+            elif o.get('kind') == 'FunctionTemplateDecl':
+                for f in o.get('inner', []):
+                    if f.get('kind') == 'FunctionDecl' and any(x.get('kind') == 'CompoundStmt' for x in f.get('inner', [])):
+                        self.free_functions[f['id']] = f
         for o in objs:
             if o.get('kind') == 'NamespaceDecl':
                 for c in o.get('inner', []):
